@@ -35,12 +35,12 @@ def J(x):
 def universe(thorough: bool):
     if thorough:
         keys = ["a", "b", "a.b", "", "é", "_adds"]
-        scal = [0, 1, True, None, "x", 1.0, [], [1], {}]
+        scal = [0, 1, True, None, "x", 1.0, [], [1], {}, [1.0], [True], 0.0, -0.0, [{"a": 1}], [{"a": True}], "x\u2028y"]
         inner_keys = ["a", "b", "a.b", ""]
         inner_vals = [0, 1, True, {}]
     else:
         keys = ["a", "a.b", "", "é"]
-        scal = [0, 1, True, None, "x", 1.0, [1], {}]
+        scal = [0, 1, True, None, "x", 1.0, [1], {}, [1.0], [True], -0.0, 0.0, [{"a": 1}], [{"a": True}]]
         inner_keys = ["b", "a.b", ""]
         inner_vals = [1]
     vals = list(scal)
@@ -159,7 +159,9 @@ def file_universe(thorough: bool):
     gels = [{"nodes": {}, "edges": {}},
             {"nodes": {"a": {"id": "a"}}, "edges": {"a→b": {"src": "a", "dst": "b", "rel": "coact", "weight": 0.5, "id": "a→b",
                                                              "updated_at": None, "attrs": {}}}}]
-    extras = [None, ("note", "x"), ("k.v", 1)] if thorough else [None, ("note", "x")]
+    # values / keys containing every character str.splitlines() treats as a line boundary (file framing is line based)
+    extras = ([None, ("note", "x"), ("k.v", 1), ("sep", "a\u2028b\u2029c\u0085d\x1ce\x0bf\x0cg\r\nh"), ("k\u2028", [1.0, True])] if thorough
+              else [None, ("note", "x"), ("sep", "a\u2028b\u2029c\u0085d\rh"), ("k\u2028", [1.0])])
     out = []
     for ver in ("1", "2"):
         for s in stores:
